@@ -1,9 +1,31 @@
 use crate::{meta, PropMeta};
 
+pub mod common;
+
+pub mod c01;
+pub mod c02;
+pub mod c03;
+pub mod c04;
+pub mod c07;
 pub mod c12;
+pub mod c13;
+pub mod c15;
+pub mod c19;
+pub mod c20;
 
 pub fn registry() -> Vec<PropMeta> {
-    vec![meta::<c12::C12>()]
+    vec![
+        meta::<c01::C01>(),
+        meta::<c02::C02>(),
+        meta::<c03::C03>(),
+        meta::<c04::C04>(),
+        meta::<c07::C07>(),
+        meta::<c12::C12>(),
+        meta::<c13::C13>(),
+        meta::<c15::C15>(),
+        meta::<c19::C19>(),
+        meta::<c20::C20>(),
+    ]
 }
 
 /// `tuv child <what> ...`: helper child processes used by some checks (e.g. C09 panic => exit)
